@@ -108,6 +108,11 @@ type VC struct {
 	entryAx         map[string]bool
 	frameAxQ        map[string]bool
 	freshBase       string // while a callee's postconditions are evaluated: the allocation counter at the call
+	locksOn         bool              // contract option locks / guards
+	rootContract    *Contract
+	lockObls        bool              // relock/unlock/balance obligations are generated in this run
+	guardObls       bool              // guarded-field obligations are generated in this run
+	locksTouched    map[string]lockID
 	keyTags         map[string]string // heap key -> type tag of its objects
 	clauseNext      string // allocation counter of the state a contract clause is being evaluated in
 	frame           struct {
@@ -291,7 +296,11 @@ func (vc *VC) heapVer(st *State, key string) string {
 	if v, ok := st.heap[key]; ok {
 		return v
 	}
-	n := fmt.Sprintf("g_H%d_%s", st.epoch, vc.sorts().shortName("heap:"+key))
+	ep := st.epoch
+	if strings.HasPrefix(key, "Gl|") {
+		ep = 0 // the hold state of this thread's locks is not part of the heap calls may change
+	}
+	n := fmt.Sprintf("g_H%d_%s", ep, vc.sorts().shortName("heap:"+key))
 	if !vc.declared[n] {
 		vc.declared[n] = true
 		srt, ok := vc.heapSort[key]
@@ -348,7 +357,14 @@ func (vc *VC) havocHeap(st *State, key string, limit string, exempt []string) {
 func (vc *VC) havocAll(st *State) {
 	vc.eng.epochs++
 	st.epoch = vc.eng.epochs
-	st.heap = map[string]string{}
+	// the hold counters of this thread's locks survive: calls are assumed lock-neutral
+	kept := map[string]string{}
+	for k, v := range st.heap {
+		if strings.HasPrefix(k, "Gl|") {
+			kept[k] = v
+		}
+	}
+	st.heap = kept
 	vc.bumpNext(st)
 }
 
@@ -438,7 +454,7 @@ func (vc *VC) frameAxiomsQ(ver string, depth int) {
 func (vc *VC) havocProtect(st *State, protect []string, keepPrefixes []string) {
 	vc.bumpNext(st)
 	for _, key := range sortedKeys(vc.heapSort) {
-		keep := false
+		keep := strings.HasPrefix(key, "Gl|") // lock state: calls are lock-neutral (locks.go)
 		for _, p := range keepPrefixes {
 			if strings.HasPrefix(key, p) {
 				keep = true
@@ -665,6 +681,28 @@ func (vc *VC) mergeStates(conds []string, sts []*State) *State {
 		}
 		vc.havocAll(out)
 		vc.note("heap forgotten at a join of paths with different unknown-effect calls")
+		// the lock state is joined exactly
+		lk := map[string]bool{}
+		for _, s := range sts {
+			for k := range s.heap {
+				if strings.HasPrefix(k, "Gl|") {
+					lk[k] = true
+				}
+			}
+		}
+		for _, k := range sortedKeys(lk) {
+			cur := vc.heapVer(sts[len(sts)-1], k)
+			for i := len(sts) - 2; i >= 0; i-- {
+				v := vc.heapVer(sts[i], k)
+				if v == cur {
+					continue
+				}
+				prev := cur
+				st2 := &State{heap: map[string]string{}}
+				cur = vc.setHeap(st2, k, sIte(conds[i], v, prev), &verInfo{kind: 2, parent: v, other: prev, cond: conds[i]})
+			}
+			out.heap[k] = cur
+		}
 		return out
 	}
 	out := &State{heap: map[string]string{}, epoch: ep}
